@@ -50,6 +50,9 @@ type vPlanC34 struct {
 	avail     map[restic.BlobHandle]bool // some copy still authenticates
 	lost      map[restic.BlobHandle]bool
 	viaHeader int // blobs readable only through the damaged file's own header
+
+	lostForSnapshots map[restic.BlobHandle]bool // lost minus the self-healing empty tree
+	emptyTreeLost    bool
 }
 
 // plan decides blob availability from the damaged store without the code under test.
@@ -91,6 +94,22 @@ func (r *vRepoC03) planC34(s *vbe.Store, muts []vMutC03) vPlanC34 {
 		if !p.avail[h] {
 			p.lost[h] = true
 		}
+	}
+	// The tree blob of an EMPTY directory heals itself: repair snapshots replaces an unreadable
+	// subtree by an empty directory, i.e. it writes exactly that blob again. For the prediction
+	// of the snapshots it is therefore not lost (after repair packs alone it is).
+	p.lostForSnapshots = map[restic.BlobHandle]bool{}
+	for h := range p.lost {
+		if h.Type == restic.TreeBlob {
+			var tr struct {
+				Nodes []json.RawMessage `json:"nodes"`
+			}
+			if json.Unmarshal(r.plain[h], &tr) == nil && len(tr.Nodes) == 0 {
+				p.emptyTreeLost = true
+				continue
+			}
+		}
+		p.lostForSnapshots[h] = true
 	}
 	return p
 }
@@ -237,6 +256,9 @@ func (r *vRepoC03) evalRepairC34(muts []vMutC03) (classes []string, nontrivial b
 		}
 	}
 	classes = append(classes, fmt.Sprintf("lost_blobs=%v", len(plan.lost) > 0))
+	if plan.emptyTreeLost {
+		classes = append(classes, "empty_tree_lost_selfheals")
+	}
 	if plan.viaHeader > 0 {
 		classes = append(classes, "salvage_via_own_header")
 	}
@@ -340,7 +362,7 @@ func (r *vRepoC03) evalRepairC34(muts []vMutC03) (classes []string, nontrivial b
 	}
 	claimed := map[string]bool{}
 	for _, sn := range r.snaps {
-		want, removed, chg, lostDirs, hitFiles := r.predictC34(sn, plan.lost)
+		want, removed, chg, lostDirs, hitFiles := r.predictC34(sn, plan.lostForSnapshots)
 		var succ []string
 		for id, o := range originals {
 			if o == sn.ID {
@@ -390,7 +412,7 @@ func (r *vRepoC03) evalRepairC34(muts []vMutC03) (classes []string, nontrivial b
 			classes = append(classes, "file_content_removed")
 		}
 		// 5. end to end: the repaired snapshot restores without error to the predicted tree
-		exp, ok := r.expectedTreeC34(sn, plan.lost, lostDirs, hitFiles)
+		exp, ok := r.expectedTreeC34(sn, plan.lostForSnapshots, lostDirs, hitFiles)
 		if !ok {
 			classes = append(classes, "source_dir_lost")
 			continue
@@ -412,7 +434,7 @@ func (r *vRepoC03) evalRepairC34(muts []vMutC03) (classes []string, nontrivial b
 func TestVerifC34RepairSalvages(t *testing.T) {
 	vSetup(t)
 	st := verifkit.Begin(t, "C34")
-	sitesPerRepo := verifkit.Scale(10, 24)
+	sitesPerRepo := verifkit.Scale(6, 16)
 	rapid.Check(t, func(t *rapid.T) {
 		r := vGenRepoC03(t, vRepoGenC03{AllowDup: true, MaxEntries: 11})
 		defer r.Close()
